@@ -28,6 +28,7 @@ CONSTANTS
   PartBodies,   \* body atoms of parts
   MaxUploads,   \* bound on upload ids issued
   MaxList,      \* longest part list of a Complete request
+  AfterRefusal, \* TRUE: refine the view by "the previous mutating request was refused"
   BadBuckets    \* names that must never be buckets (internal storage names, '.', '..'): every operation
                 \* addressed to them is refused and changes nothing (C10)
 
@@ -37,8 +38,14 @@ CONSTANTS
 \* states -- the states in which an implementation may keep residue
 \* (directories, metadata files, skiplist nodes) that the abstract state of
 \* S3 cannot see.
-VARIABLES st, hist, ghost
-vars == <<st, hist, ghost>>
+\* rej: the refused mutating request of the previous step (or NoRefusal).  Like ghost it
+\* influences no action; as part of the VIEW it makes TLC continue witness
+\* histories THROUGH refused requests (which are self-loops of the abstract
+\* graph), so that residue a refusal leaves inside the implementation (a
+\* half-updated buffer, a flag, a lock) is exercised by every following step.
+NoRefusal == [op |-> "none"]
+VARIABLES st, hist, ghost, rej
+vars == <<st, hist, ghost, rej>>
 
 KeySet ==
   CASE KeySetName = "a"     -> {<<97>>}
@@ -76,7 +83,7 @@ PreHist == IF CfgName = "memenabled"
 PreState == IF CfgName = "memenabled"
               THEN [InitState EXCEPT !.bk = Upd(<<>>, "bkt1", [ver |-> "Enabled", objs |-> <<>>])]
               ELSE Init0
-Init == st = PreState /\ hist = PreHist /\ ghost = {}
+Init == st = PreState /\ hist = PreHist /\ ghost = {} /\ rej = NoRefusal
 
 BodySet == {<<x>> : x \in Bodies} \cup (IF WithEmpty THEN {<<>>} ELSE {})
 NextVid(s) == "v" \o ToString(Cardinality(s.vids) + 1)
@@ -86,6 +93,7 @@ ListOp(b, d) == [op |-> "ListObjects", b |-> b, v2 |-> FALSE, prefix |-> <<>>, d
                  max |-> 0, marker |-> <<>>, hasMarker |-> FALSE]
 MetaA == [m1 |-> "A"]
 MetaB == [ct |-> "T", ce |-> "E", cd |-> "D", m2 |-> "B"]
+MetaC == [ct |-> "U", m2 |-> "C", m3 |-> "C"]      \* a copy that brings its own, different, metadata
 
 \* every version id a client could know: the ones replies revealed
 KnownVids(s, b, k) == IF HasB(s, b) THEN {v.vid : v \in {x \in ToSet(Stack(s, b, k)) : ~x.nul /\ SubSeq(x.vid, 1, 1) # "?"}} ELSE {}
@@ -120,6 +128,8 @@ Ops(s) ==
                                      objs |-> [i \in 1..Cardinality(ks) |-> [k |-> SeqOfSet(ks)[i], vid |-> ""]]]
                                     : b \in Buckets, ks \in KeySubsets} ELSE {})
 \cup (IF On("CopyObject")   THEN {[op |-> "CopyObject", sb |-> sb, sk |-> sk, b |-> b, k |-> k, meta |-> NoMeta]
+                                    : sb \in Buckets, sk \in KeySet, b \in Buckets, k \in KeySet} ELSE {})
+\cup (IF On("CopyMeta")     THEN {[op |-> "CopyObject", sb |-> sb, sk |-> sk, b |-> b, k |-> k, meta |-> MetaC]
                                     : sb \in Buckets, sk \in KeySet, b \in Buckets, k \in KeySet} ELSE {})
 \cup (IF On("ListObjects")  THEN {[op |-> "ListObjects", b |-> b, v2 |-> v2, prefix |-> <<>>, delim |-> d,
                                      max |-> 0, marker |-> <<>>, hasMarker |-> FALSE]
@@ -178,6 +188,9 @@ BadOps(s) ==
 \cup {[op |-> "GetObject", b |-> b, k |-> k] : b \in BadBuckets, k \in KeySet \cup {<<98, 117, 99, 107, 101, 116, 47, 98, 107, 116, 49>>}}
 \cup {[op |-> "DeleteObject", b |-> b, k |-> k, vid |-> ""] : b \in BadBuckets, k \in KeySet \cup {<<98, 117, 99, 107, 101, 116, 47, 98, 107, 116, 49>>}}
 \cup {ListOp(b, <<>>) : b \in BadBuckets}
+\* ... nor can they be read through a copy source
+\cup {[op |-> "CopyObject", sb |-> b, sk |-> k, b |-> b2, k |-> <<122>>, meta |-> NoMeta, srcInternal |-> TRUE]
+        : b \in BadBuckets, b2 \in Buckets, k \in KeySet \cup {<<98, 117, 99, 107, 101, 116, 47, 98, 107, 116, 49>>}}
 
 VidBound(s, op) ==
   (op.op \in {"PutObject", "PostObject", "CopyObject", "DeleteObject", "DeleteMulti"} /\ HasB(s, op.b) /\ Enabled(s, op.b))
@@ -190,13 +203,14 @@ Next ==
        /\ \E res \in Step(st, Cfg, op) :
             /\ st' = res.st
             /\ hist' = Append(hist, [op |-> op, r |-> res.r])
+            /\ rej' = IF AfterRefusal /\ op.op \in Mutating /\ Refused(res.r) THEN op ELSE NoRefusal
             /\ ghost' = IF Ghosts
                           THEN {bk \in ghost \cup AllBK(st) : StackAt(res.st, bk[1], bk[2]) = <<>>}
                           ELSE {}
 
 Spec == Init /\ [][Next]_vars
 
-View == <<st, ghost>>
+View == <<st, ghost, rej>>
 
 \* ---- audit: after a mutating last step the harness re-reads everything a
 \* client can observe; the expected replies are computed by Step itself ----
